@@ -444,3 +444,33 @@ def parent_submodule_block(prop="C07"):
     c.ensures("parent_is_the_first_submodule_with_that_name_below_the_same_ancestor_module_else_unchanged", post)
     c.no_raise = True
     return c
+
+
+# ---------------------------------------------------------------- BLOCK constructs are scopes of their own
+BLOCK_SCOPED = ("TYPE_RE", "INTERFACE_RE", "ENUM_RE", "ATTRIB_RE", "PARAMETER_RE")
+
+
+def block_scope_guards(prop="C07", replay=None):
+    """a derived type, interface block or enumeration defined inside a BLOCK construct, and an attribute statement there, belong to the construct (F2018 11.1.4): the
+    branches of FortranContainer.__init__'s statement dispatch that would add them to the enclosing procedure's tables are taken at block level 0 only (the guards are
+    read from the if / elif chain of the current source).  Without the guard a BLOCK-local type replaces the host's type of the same name in the whole procedure."""
+    from contracts.cascade import read_cascade
+    from harness.core import OR, PROVED, REFUTED, UNKNOWN
+    out = []
+    cas = read_cascade()
+    for rx in BLOCK_SCOPED:
+        first = [b for b in cas if b.regex == rx]
+        if not first:
+            out.append(OR(id=f"{prop}.S.cascade.{rx}.taken_at_block_level_0_only", status=UNKNOWN, kind="S", target="ford.sourceform.FortranContainer.__init__", detail=f"no branch tests {rx}"))
+            continue
+        b = min(first, key=lambda x: x.idx)
+        ok = "blocklevel == 0" in b.guard.replace("(", "").replace(")", "")
+        r = OR(id=f"{prop}.S.cascade.{rx}.taken_at_block_level_0_only", status=PROVED if ok else REFUTED, kind="S", role="pre", backend="ast", target="ford.sourceform.FortranContainer.__init__",
+               desc=f"branch #{b.idx} ({rx}) is guarded by `blocklevel == 0` (guard read from the source: `{b.guard or 'none'}`)")
+        if not ok:
+            r.witness = {"branch": b.src[:160]}
+            r.detail = "declarations inside a BLOCK construct are added to the enclosing scope"
+            if replay:
+                r.replay = replay()
+        out.append(r)
+    return out
